@@ -1,0 +1,15 @@
+//go:build verif
+
+package stitch
+
+import (
+	"github.com/polydawn/go-timeless-api/rio"
+	"github.com/polydawn/rio/fs"
+	"github.com/polydawn/rio/stitch/placer"
+)
+
+// NewAssemblerForVerif builds an Assembler with an injected cache filesystem,
+// unpack tool and placer (build tag `verif` only).
+func NewAssemblerForVerif(cache fs.FS, unpackTool rio.UnpackFunc, placerTool placer.Placer) *Assembler {
+	return &Assembler{cache: cache, unpackTool: unpackTool, placerTool: placerTool}
+}
